@@ -30,7 +30,14 @@ PCases == {[side |-> "P", c |-> c, used |-> Size - n - d, n |-> n,
 CCases == {[side |-> "C", c |-> c, used |-> n + d, n |-> n,
             waits |-> CWaits(c + n + d, c, n), missing |-> Max0(c + n - (c + n + d))] :
              c \in Cs, n \in Ns, d \in Ds}
-Cases == {x \in PCases \cup CCases : x.used >= 0 /\ x.used <= Size}
+\* Close against a waiter that has tested the done flag and is about to call Wait (it holds the condition's mutex):
+\* Ring!CloseL1 / CloseL2 are enabled only when that mutex is free, so Close cannot get past its Lock() before the
+\* waiter is inside Wait - which is what makes the broadcast reach it.  Afterwards the waiter returns end-of-stream.
+\* (n = 0: the ring is empty / full as needed by the waiter.)
+CloseCases == {[side |-> "X", c |-> c, used |-> IF w \in {"Write", "WriteWait"} THEN Size ELSE 0, n |-> 1,
+                waits |-> TRUE, missing |-> 0, waiter |-> w] :
+                 c \in {0, 5000}, w \in {"Read", "ReadPeek", "ReadWait", "Write", "WriteWait"}}
+Cases == {x \in PCases \cup CCases : x.used >= 0 /\ x.used <= Size} \cup CloseCases
 
 VARIABLE st
 Init == st \in Cases
@@ -38,6 +45,6 @@ Next == UNCHANGED st
 Spec == Init /\ [][Next]_st
 
 \* the boundary is where the enumeration says it is: a call waits exactly when it is short, by exactly the missing bytes
-Boundary == (st.waits <=> st.missing > 0) /\ st.missing <= 1
+Boundary == st.side = "X" \/ ((st.waits <=> st.missing > 0) /\ st.missing <= 1)
 Emit == PrintT(ToJson(st))
 =============================================================================
